@@ -41,7 +41,9 @@ def c14(ctx):
              "components exchanged, terms compared) of cmp_coerced(B, A)")
     rep.rule("C14.R3", "equals and compare both start from one call cmp_coerced(self, other) on the unchanged operands, so equality and ordering "
              "share one coercion")
-    rep.rule("C14.R4", "compound assignment uses the same fold as the binary expression (C03.R3 on visit_assignment)")
+    rep.rule("C14.R4", "compound assignment uses the same fold as the binary expression (C03.R3 on visit_assignment), on every path: once "
+             "the statement has an operator, the write of the destination is reachable only through binary_operator_fold, whose result is "
+             "the value written, with the statement's own operator -- no operator or operand kind gets a path of its own")
     outs = op_outcomes(ctx)
     fn = F.fn(OPFN)
     if outs is None:
@@ -112,3 +114,54 @@ def c14(ctx):
         rep.ob("C14.R3", "shared-coercion::" + name, ok, why, f.loc(), how="self.cmp_coerced(other)")
     # R4
     fold_rule(ctx, "C14.R4")
+    compound_through_fold(ctx, "C14.R4")
+    rep.rule("C14.R6", "`not` agrees with truthiness: ProduceVal::visit_unary_expression yields Boolean(!is_truthy(operand)) of the evaluated "
+             "operand itself (outcome table by KIND; the same is_truthy that and/or/nor and the conditions use)")
+    from .c03 import unary_rule
+    unary_rule(ctx, "C14.R6")
+
+
+
+def compound_through_fold(ctx, rule):
+    F, rep = ctx.F, ctx.rep
+    from .. import tables
+    from ..core import op_place
+    fn = find_method(F, VP, "visit_assignment", "exec::exec_stmt::ExecStmt")
+    if fn is None:
+        rep.fail(rule, "anchor::visit_assignment", "ExecStmt::visit_assignment not found")
+        return
+    rep.analysed(fn)
+    folds = [bi for bi, t in fn.calls() if callee_def(t) == "exec::produce_val::binary_operator_fold"]
+    # the branch on `operator`
+    some_targets = []
+    for bi in range(len(fn.blocks)):
+        t = fn.term(bi)
+        if t["k"] != "switch":
+            continue
+        sw = tables.switch_on_discr(fn, bi)
+        if not sw:
+            continue
+        pl = sw[0]
+        names = [e.get("name") for e in pl["p"] if isinstance(e, dict) and "f" in e]
+        if names[-1:] == ["operator"] and "Some" in sw[2]:
+            some_targets.append(sw[2]["Some"])
+    # the write: a visit call on a WriteVal receiver
+    writes = []
+    for bi, t in fn.calls():
+        if (t["callee"].get("name") or "").startswith("visit_") and t["args"] and op_place(t["args"][0]) is not None:
+            if fn.local_ty(op_place(t["args"][0])["l"]).peel_refs().s.startswith("exec::write_val::WriteVal"):
+                writes.append(bi)
+    if len(folds) != 1 or len(some_targets) != 1 or not writes:
+        rep.fail(rule, "compound::shape", "shape not recognised: %d fold call(s), %d branch(es) on the operator, %d write(s)" % (len(folds), len(some_targets), len(writes)), fn.loc())
+        return
+    reach = fn.reachable(some_targets[0], avoid=folds)
+    bypass = [w for w in writes if w in reach]
+    ok = not bypass
+    rep.ob(rule, "compound::every-path-through-fold", ok,
+           "" if ok else "with an operator present, the write at line %s can be reached without passing binary_operator_fold: some operator / operand kinds are combined by other code than `x op e`" % fn.term(bypass[0])["line"],
+           fn.loc(fn.term(folds[0])["line"]), how="the write is unreachable from the Some(op) branch once the fold call is removed")
+    # the operator handed to the fold is the statement's
+    t = fn.term(folds[0])
+    src = set(origins(fn, t["args"][0]))
+    ok = any(d == ("param", 2) and "operator" in p for d, p in src) and len({d for d, p in src}) == 1
+    rep.ob(rule, "compound::operator-is-the-statement's", ok, "" if ok else "the operator handed to the fold is not a.operator (%s)" % sorted(map(str, src)), fn.loc(t["line"]), how="a.operator")
